@@ -51,6 +51,58 @@ def nash_defect(A, B, x, y):
     return None
 
 
+def solve_frac(S, b):
+    """exact Gauss-Jordan on Fractions; None when singular"""
+    k = len(S)
+    Mx = [list(S[i]) + [b[i]] for i in range(k)]
+    for c in range(k):
+        p = next((r for r in range(c, k) if Mx[r][c] != 0), None)
+        if p is None:
+            return None
+        Mx[c], Mx[p] = Mx[p], Mx[c]
+        pv = Mx[c][c]
+        Mx[c] = [t / pv for t in Mx[c]]
+        for r in range(k):
+            if r != c and Mx[r][c] != 0:
+                f = Mx[r][c]
+                Mx[r] = [a - f * t for a, t in zip(Mx[r], Mx[c])]
+    return [Mx[i][k] for i in range(k)]
+
+
+def all_equilibria_exact(A, B):
+    """All Nash equilibria of a NON-DEGENERATE bimatrix game by the definition: for every pair of
+    equal-size supports solve the two indifference systems exactly, keep the pair when the
+    weights are positive and nothing outside the supports pays more. (In a non-degenerate game
+    every equilibrium has equal-size supports and is the unique one with its supports.)
+    Returns a list of (supp0, supp1, x, y) in Fractions."""
+    m, n = len(A), len(B)
+    out = []
+    for k in range(1, min(m, n) + 1):
+        for I in itertools.combinations(range(m), k):
+            for J in itertools.combinations(range(n), k):
+                # y on J making player 0 indifferent on I; x on I making player 1 indifferent on J
+                S0 = [[A[i][j] for j in J] + [Fraction(-1)] for i in I] + [[Fraction(1)] * k + [Fraction(0)]]
+                S1 = [[B[j][i] for i in I] + [Fraction(-1)] for j in J] + [[Fraction(1)] * k + [Fraction(0)]]
+                rhs = [Fraction(0)] * k + [Fraction(1)]
+                zy, zx = solve_frac(S0, rhs), solve_frac(S1, rhs)
+                if zy is None or zx is None:
+                    continue
+                if any(t <= 0 for t in zy[:-1]) or any(t <= 0 for t in zx[:-1]):
+                    continue
+                if any(sum(A[i][j] * zy[t] for t, j in enumerate(J)) > zy[-1] for i in range(m) if i not in I):
+                    continue
+                if any(sum(B[j][i] * zx[t] for t, i in enumerate(I)) > zx[-1] for j in range(n) if j not in J):
+                    continue
+                x = [Fraction(0)] * m
+                y = [Fraction(0)] * n
+                for t, i in enumerate(I):
+                    x[i] = zx[t]
+                for t, j in enumerate(J):
+                    y[j] = zy[t]
+                out.append((I, J, x, y))
+    return out
+
+
 def supp(v):
     return tuple(i for i, t in enumerate(v) if t != 0)
 
@@ -137,6 +189,7 @@ def lh_cases(ctx, A, B, kind, cases, pivots, cappings, maxiters):
                     ctx.spec_fail("lh_api_vs_kernel", "lemke_howson(...) differs from _lemke_howson_capping on the same input",
                                   {"A": A.tolist(), "B": B.tolist(), "init_pivot": ip, "capping": cap, "max_iter": mi})
                 ctx.count("lh:converged" if res.converged else "lh:not-converged")
+                ctx.count("lh:num_iter>=%d" % (10 if res.num_iter >= 10 else 5 if res.num_iter >= 5 else 1))
                 if cap is not None and res.init != ip:
                     ctx.count("lh:capping-moved-init")
                 if res.converged:
@@ -154,13 +207,28 @@ def lh_cases(ctx, A, B, kind, cases, pivots, cappings, maxiters):
                 args = "m=%d n=%d A=%s B=%s init=%d maxiter=%d capping=%d tolpiv=%s toldiff=%s" % (
                     m, n, fxm(A), fxm(B), ip, mi, capi, fx(TOL_PIV), fx(TOL_RATIO_DIFF))
                 nt = res.num_iter >= 3
-                cases.append(Case("C05 lhf " + args, impl, nontrivial=nt, tag="lhf"))
+                cases.append(Case("C05 lhf " + args, impl, nontrivial=nt, tag="lhf",
+                                  cmp=lambda mo, im, _c=ctx: cmp_lh_float(_c, mo, im)))
                 cases.append(Case("C05 lh " + args, impl, nontrivial=nt, tag="lh",
                                   cmp=lambda mo, im, _k=kind, _c=ctx: cmp_lh_rat(_c, _k, mo, im)))
 
 
 def kvs(s):
     return dict(t.split("=", 1) for t in s.split(" "))
+
+
+def cmp_lh_float(ctx, mo, im):
+    """Float instance of the model vs the code: every field bit for bit (trace fidelity).
+    `nf` / `ties` are the model's diagnostic counts of ratio tests that reported found=False (the
+    code ignores the flag) and of ratio tests that entered the lexicographic tie-breaking loop."""
+    head, diag = mo.rsplit(" nf=", 1)
+    nf, ties = diag.split(" ties=")
+    if nf != "0":
+        ctx.count("lh:runs-with-a-ratio-test-reporting-not-found")
+    if ties != "0":
+        ctx.count("lh:runs-with-lexicographic-tie-breaking")
+        ctx.count("lh:lexicographic-tie-breaks", int(ties))
+    return None if head == im else "outputs differ"
 
 
 def cmp_lh_rat(ctx, kind, mo, im):
@@ -246,6 +314,57 @@ def cmp_se(ctx, mo, im):
     return None
 
 
+def indiff_cases(ctx, cases, count):
+    """direct calls of `_indiff_mixed_action` on small-integer systems. Where LAPACK's solution
+    is exactly the rational solution (dyadic, common here) the verdict is compared exactly —
+    this ties the boundary semantics (`out[i] <= 0` rejects a zero weight, `payoff > val`
+    accepts a tie), which the whole-game comparison has to leave to rounding."""
+    from quantecon.game_theory.support_enumeration import _indiff_mixed_action
+    from .common import ratm
+    rng = ctx.rng
+    for _ in range(count):
+        mo, no = rng.randint(1, 4), rng.randint(1, 4)
+        k = rng.randint(1, min(mo, no))
+        own = sorted(rng.sample(range(mo), k))
+        opp = sorted(rng.sample(range(no), k))
+        lo, hi = rng.choice([(0, 1), (-1, 1), (0, 2), (-2, 2)])
+        P = [[rng.randint(lo, hi) for _ in range(no)] for _ in range(mo)]
+        if rng.random() < 0.5 and k >= 2:
+            # plant a boundary: make one own row dominate weakly / equalise two columns partially
+            i, j = rng.sample(range(k), 2)
+            P[own[i]][opp[j]] = P[own[j]][opp[j]]
+        Pa = np.array(P, dtype=float)
+        Abuf = np.empty((k + 1, k + 1))
+        flags = np.empty(mo, np.bool_)
+        out = np.empty(k + 1)
+        ok = bool(_indiff_mixed_action(Pa, np.array(own, dtype=np.int_), np.array(opp, dtype=np.int_), Abuf, flags, out))
+        impl = "%d %s" % (int(ok), fxs(out))
+        line = "C05 indiff mown=%d P=%s own=%s opp=%s" % (mo, ratm(P), ints(own), ints(opp))
+        cases.append(Case(line, impl, nontrivial=(k >= 2), tag="indiff", cmp=lambda mo_, im, _c=ctx: cmp_indiff(_c, mo_, im)))
+
+
+def cmp_indiff(ctx, mo, im):
+    if mo == "sing":
+        ctx.count("indiff:singular-exact-system")       # gesv's verdict on a singular matrix is rounding
+        return None
+    mb, mz = mo.split(" ")
+    cb, cz = im.split(" ")
+    z, zc = parse_rats(mz), parse_rats(cz)
+    if z == zc:
+        # LAPACK returned the exact solution: every later comparison is on the same numbers
+        ctx.count("indiff:exact-solve")
+        if any(t == 0 for t in z[:-1]):
+            ctx.count("indiff:exact-zero-weight")
+        if mb != cb:
+            return "verdict differs on an exactly solved system (model %s, code %s)" % (mb, cb)
+        ctx.count("indiff:verdict-%s" % cb)
+        return None
+    ctx.count("indiff:inexact-solve")
+    if any(abs(a - b) > Fraction(1, 10 ** 6) for a, b in zip(z, zc)):
+        return "solution of the indifference system differs"
+    return None
+
+
 # ----------------------------------------------------------------------------
 # vertex enumeration
 
@@ -267,6 +386,7 @@ def ve_run(ctx, A, B, kind, cases):
         if why:
             ctx.spec_fail("vertex_enumeration", "returned profile is not a Nash equilibrium: " + why,
                           {"A": A.tolist(), "B": B.tolist(), "NE": [x.tolist(), y.tolist()]})
+    check_qhull_assumption(ctx, A, B, brps)
     ctx.count("ve:num-eq=%d" % min(len(NEs), 9))
     ctx.count("ve:vertices", brps[0].num_vertices + brps[1].num_vertices)
     impl = "|".join("%s:%s" % (fxs(x), fxs(y)) for x, y in NEs) or "-"
@@ -275,6 +395,43 @@ def ve_run(ctx, A, B, kind, cases):
         fx(brps[0].trans_recip), fx(brps[1].trans_recip))
     cases.append(Case(line, impl, nontrivial=True, tag="vef"))
     return NEs
+
+
+def check_qhull_assumption(ctx, A, B, brps):
+    """The hypothesis of theorem `ve_sound` (Vertex0OK / Vertex1OK), evaluated on what Qhull
+    actually delivered: raw coordinates non-negative, labelled inequalities binding, zero vector
+    only for the zero labelling — in Fractions, inside a relative 1e-9. Qhull is outside the
+    property (its output is an input of the model), so a miss is recorded, not a violation."""
+    m, n = A.shape
+    tol = Fraction(1, 10 ** 9)
+    for pl, (P, own, cnt_other) in enumerate(((B, m, n), (A, n, m))):
+        # P = opponent's payoff array, rows = opponent's actions, columns = own actions
+        col_mins, col_maxs = P.min(axis=0), P.max(axis=0)
+        shifts = np.zeros(own)
+        shifts[col_mins < 0] = -col_mins[col_mins < 0]
+        shifts[(col_maxs == col_mins) * (col_mins <= 0)] += 1
+        Ps = FM(P + shifts)
+        t = Fraction(float(brps[pl].trans_recip))
+        own_start, pay_start = (0, m) if pl == 0 else (m, 0)
+        zero_lab = set(range(own_start, own_start + own))
+        for eq, lab in zip(brps[pl].equations, brps[pl].labelings):
+            e = F(eq)
+            raw = [e[i] * t - e[own] for i in range(own)]
+            scale = max([abs(e[i] * t) for i in range(own)] + [abs(e[own])])   # size of the terms subtracted
+            pay = [sum(Ps[j][i] * raw[i] for i in range(own)) for j in range(cnt_other)]
+            c = max(pay)
+            ok = all(v >= -tol * scale for v in raw)
+            for k in lab:
+                k = int(k)
+                if own_start <= k < own_start + own:
+                    ok = ok and abs(raw[k - own_start]) <= tol * scale
+                else:
+                    ok = ok and abs(pay[k - pay_start] - c) <= tol * max(abs(c), scale)
+            if set(int(k) for k in lab) != zero_lab:
+                ok = ok and sum(raw) > tol * scale
+            ctx.count("ve:qhull-vertex-assumption-%s" % ("holds" if ok else "MISSED"))
+            if not ok and "qhull-miss" not in ctx.extra:
+                ctx.extra["qhull-miss"] = {"A": A.tolist(), "B": B.tolist(), "polytope": pl, "labels": [int(k) for k in lab]}
 
 
 def cross_check(ctx, A, B, se, ve):
@@ -300,6 +457,19 @@ def cross_check(ctx, A, B, se, ve):
     ctx.count("cross:generic-games")
     if len(P) >= 3:
         ctx.count("cross:>=3-equilibria")
+    # independent completeness oracle: every equilibrium, computed from the definition in Fractions
+    m, n = A.shape
+    if ctx.thorough or m * n <= 12:
+        ref = all_equilibria_exact(FM(A), FM(B))
+        ctx.count("cross:exact-enumeration")
+        for name, L in (("support_enumeration", P), ("vertex_enumeration", Q)):
+            for (I, J, x, y) in ref:
+                if not any(same_profile((x, y), q) for q in L):
+                    ctx.spec_fail(name + "_incomplete", "%s misses the equilibrium with supports %s, %s of a generic game"
+                                  % (name, I, J), dict(rep, missing=[[float(t) for t in x], [float(t) for t in y]]))
+            if len(L) != len(ref):
+                ctx.spec_fail(name + "_count", "%s returned %d profiles, the game has exactly %d equilibria"
+                              % (name, len(L), len(ref)), rep)
 
 
 # ----------------------------------------------------------------------------
@@ -367,14 +537,27 @@ def run(ctx):
         "vertex_enumeration: Qhull's (equations, simplices) are inputs of the model",
         "rounding envelope 1e-9 on probabilities between the exact model and the code's doubles"]
 
+    # corpus first: fixed games that once needed attention (degenerate read-outs, many ties)
+    import json, os
+    cpath = os.path.join(ctx.corpus_dir, "c05_games.json")
+    for ent in json.load(open(cpath)):
+        A, B = np.array(ent["A"], dtype=float), np.array(ent["B"], dtype=float)
+        m, n = A.shape
+        ctx.count("game:corpus")
+        lh_cases(ctx, A, B, "int", cases, range(m + n), (None, 1, 2, 10), (MAXIT,))
+        lh_cases(ctx, A, B, "int", cases, range(m + n), (None, 2), (1, 3))
+        se_run(ctx, A, B, "int", cases)
+        if m >= 2 and n >= 2:
+            ve_run(ctx, A, B, "int", cases)
+
     shapes_small = [(m, n) for m in range(1, 4) for n in range(1, 4)]
     shapes_big = [(m, n) for m in range(1, 6) for n in range(1, 6) if max(m, n) >= 4]
     plan = []
-    reps_small, reps_big = ctx.n(1, 6), ctx.n(1, 3)
+    reps_small, reps_big = ctx.n(4, 16), ctx.n(1, 6)
     for kind in ("int", "dup", "dyadic", "generic", "zerosum", "coord"):
         for (m, n) in shapes_small:
             plan += [(m, n, kind)] * reps_small
-        bigs = shapes_big if ctx.thorough else ctx.rng.sample(shapes_big, 4)
+        bigs = shapes_big if ctx.thorough else ctx.rng.sample(shapes_big, 8)
         for (m, n) in bigs:
             plan += [(m, n, kind)] * reps_big
 
@@ -383,7 +566,9 @@ def run(ctx):
         ctx.count("game:" + kind)
         ctx.count("game:%s" % ("square" if m == n else "m!=n"))
         # Lemke-Howson: all pivots x cappings; a few short max_iter to reach the non-converged exits
-        lh_cases(ctx, A, B, kind, cases, range(m + n), (None, 1, 2, 10), (MAXIT,))
+        # (max_iter 500: far above any path length here, and a code change that makes the path
+        #  cycle shows up as a disagreement in bounded time)
+        lh_cases(ctx, A, B, kind, cases, range(m + n), (None, 1, 2, 10), (500,))
         lh_cases(ctx, A, B, kind, cases, [ctx.rng.randrange(m + n)], (None, 1, 2), (1, 2, 3, 5))
         se = se_run(ctx, A, B, kind, cases)
         if m >= 2 and n >= 2:
@@ -391,8 +576,10 @@ def run(ctx):
             if ve is not None and kind in ("generic", "zerosum", "coord"):
                 cross_check(ctx, A, B, se, ve)
 
+    indiff_cases(ctx, cases, ctx.n(600, 6000))
+
     # pure equilibria
-    for _ in range(ctx.n(120, 1200)):
+    for _ in range(ctx.n(150, 3000)):
         N = ctx.rng.randint(1, 4)
         nums = [ctx.rng.randint(1, 3) for _ in range(N)]
         kind = ctx.rng.choice(["int", "int", "half", "real"])
@@ -400,3 +587,54 @@ def run(ctx):
         pn_run(ctx, cases, N, nums, kind, tol)
 
     ctx.run_cases(cases)
+
+
+# ----------------------------------------------------------------------------
+# ./check C05 --replay <file>: re-run a recorded failing input against the real code
+
+def replay(data):
+    """prints what the real code returns on the recorded input and the exact oracle's verdict;
+    exit status 1 when the violation reproduces, 0 otherwise"""
+    from quantecon.game_theory import (NormalFormGame, Player, lemke_howson, support_enumeration,
+                                       vertex_enumeration, pure_nash_brute)
+    rep = data.get("replay", data)
+    bad = 0
+    if "A" in rep:
+        A, B = np.array(rep["A"], dtype=float), np.array(rep["B"], dtype=float)
+        m, n = A.shape
+        g = mk_game(A, B)
+        FA, FB = FM(A), FM(B)
+        if "init_pivot" in rep:
+            NE, res = lemke_howson(g, init_pivot=rep["init_pivot"], max_iter=rep.get("max_iter", MAXIT),
+                                   capping=rep.get("capping"), full_output=True)
+            why = nash_defect(FA, FB, F(NE[0]), F(NE[1])) if res.converged else None
+            print("lemke_howson ->", NE, "converged", res.converged, "num_iter", res.num_iter, "| oracle:", why or "ok")
+            bad += bool(why)
+        for name, fn in (("support_enumeration", support_enumeration), ("vertex_enumeration", vertex_enumeration)):
+            if name == "vertex_enumeration" and min(m, n) < 2:
+                continue
+            out = fn(g)
+            for x, y in out:
+                why = nash_defect(FA, FB, F(x), F(y))
+                print(name, "->", x, y, "| oracle:", why or "ok")
+                bad += bool(why)
+            if min(m, n) >= 1 and m * n <= 25 and data.get("key", "").split("_")[-1] in (
+                    "incomplete", "count", "missing", "parity", "twice"):
+                ref = all_equilibria_exact(FA, FB)
+                print(name, "returned", len(out), "profiles; exact enumeration over equal-size supports finds", len(ref))
+                bad += len(out) != len(ref)
+    elif "nums" in rep:
+        arrs = [np.array(a, dtype=float) for a in rep["pay"]]
+        g = NormalFormGame(tuple(Player(a) for a in arrs))
+        got = pure_nash_brute(g, tol=rep.get("tol"))
+        print("pure_nash_brute ->", got, "(recorded: %s)" % rep.get("got"))
+        print(data.get("what"))
+        bad += 1
+    else:
+        print(json_dump(data))
+    return 1 if bad else 0
+
+
+def json_dump(d):
+    import json
+    return json.dumps(d, indent=1, default=str)
